@@ -27,8 +27,11 @@ def main():
         meta = json.load(open(os.path.join(d, "meta.json")))
         pid = meta["property"]
         a = sh("git -C /repo apply %s/patch.diff" % d)
+        if a.returncode != 0:    # context lines may have been touched by a fix: commit; retry with less context
+            a = sh("git -C /repo apply -C1 %s/patch.diff" % d)
         if a.returncode != 0:
             rows.append((name, pid, "apply-failed", a.stdout.strip()[:200]))
+            print("%-14s %s apply-failed %s" % (name, pid, rows[-1][3]), flush=True)
             continue
         t0 = time.time()
         try:
